@@ -248,13 +248,17 @@ def run_sweep(spec, res):
             ledger.register(val, f"returned:{op[1]}", f"op{i}")
         for b in ledger.audit(f"op{i}:{op[1]}"):
             hits.append(b)
+        # everything now in the cache is what a later request would hand out
+        ledger.register(rel.data, "cached:", f"op{i}")
     c01.run_walk(wspec, wspec['n1'], ops, fresh_for=set(), ledger=ledger, audit=audit)
     res['observations'] += len(ops) * max(len(ledger.entries), 1)
     res['monitor'] = dict(sweep_requests=len(ops), ledger_arrays=len(ledger.entries))
     seen = set()
     for b in hits:
-        role = b['role'].split('[')[0]
-        mech = f"in-place change of {role.split(':')[0]} array '{role.split(':')[1]}' by request {b['after_op'].split(':', 1)[1]}"
+        role = b['role']
+        kind = role.split(':')[0]
+        nm = role.split(':', 1)[1].split('[')[0] or role.split('[', 1)[1].split(']')[0].strip("'")
+        mech = f"in-place change of {kind} array '{nm}' by request {b['after_op'].split(':', 1)[1]}"
         if mech not in seen:
             seen.add(mech)
             common.add_violation(res, mech, dict(b, style=style))
